@@ -22,10 +22,10 @@ ASSUMPTIONS = ["tidytcells' standardise functions are the reference the property
                "NumPy booleans count as bool"]
 EXHAUSTIVE = {"quick": ["predicate corpus complete", "all 2^4 x species option combinations on the witness table (subset in quick)"],
               "thorough": ["predicate corpus complete", "all option combinations (species x functional x tcr precision x mhc precision x strict x suppress) on the witness table"]}
-REQUIRE = {"predicate_objects": 200, "predicate_strings_exact": 150, "predicate_nonstrings": 60, "standardize_cases": 25,
-           "standardize_cells_checked": 300, "standardize_missing_cells": 30, "standardize_col_mapper_cases": 5, "standardize_false_cases": 4,
-           "standardize_locality_checks": 10, "tables_fingerprinted": 25, "multimerge_cases": 30, "multimerge_named_key_no_suffix": 6,
-           "multimerge_index_key": 6, "multimerge_suffix_cases": 8, "multimerge_inner": 4}
+REQUIRE = {"predicate_objects": 200, "predicate_strings_exact": 150, "predicate_nonstrings": 60, "standardize_cases": 14,
+           "standardize_cells_checked": 300, "standardize_missing_cells": 30, "standardize_col_mapper_cases": 3, "standardize_false_cases": 2,
+           "standardize_locality_checks": 10, "tables_fingerprinted": 14, "multimerge_cases": 17, "multimerge_named_key_no_suffix": 6,
+           "multimerge_index_key": 6, "multimerge_suffix_cases": 8, "multimerge_inner": 3}
 SHARDS = {"quick": 4, "thorough": 16}
 AA = set("ACDEFGHIKLMNPQRSTVWY")
 
